@@ -964,6 +964,31 @@ func main() {
 			executeSimul(c, simul[c.Index])
 		})
 
+		// Dense cheap trials for the cancelled-at-entry bound (big.go).
+		ndense := r.Scale(20000, 200000) / denseBatch
+		if small {
+			ndense = r.Scale(5000, 40000) / denseBatch
+		}
+		r.Cases("dense", ndense, 1, func(c *vkit.Case) {
+			if r.NViolations() >= 5 {
+				return
+			}
+			executeDense(c)
+		})
+
+		// n within a few of MaxInt32 (big.go): thorough only, one variant only (without the race
+		// detector and with the inherited GOMAXPROCS; the 32-bit variant runs its own case).
+		var near []nearCase
+		if r.Thorough() && !vkit.RaceEnabled && os.Getenv("GOMAXPROCS") == "" {
+			near = nearCases()
+		}
+		r.Cases("near-maxint32", len(near), 1, func(c *vkit.Case) {
+			if r.NViolations() >= 5 {
+				return
+			}
+			executeNear(c, near[c.Index])
+		})
+
 		// GOMAXPROCS changed inside the process. "GOMAXPROCS when <= 0" means the value in force when
 		// the call is made. GOMAXPROCS is process-global: this group runs alone, one case at a time,
 		// after everything above has finished, and every case restores the inherited value.
@@ -1092,6 +1117,7 @@ func main() {
 			r.Floor("GOMAXPROCS flips while the toggle group ran", r.Table("toggle", "GOMAXPROCS flips while the group ran"), int64(nToggle))
 			r.Floor("runs with a caller ctx whose deadline has passed but whose Err() is Canceled", r.Table("runs", "caller ctx has a passed deadline but Err() == Canceled"), int64(len(deadline)*4/6))
 			r.Floor("runs in which several calls failed at the same instant with errors of different types", r.Table("runs", "several calls failed at the same instant with errors of different types"), int64(len(simul)/2))
+			r.Floor("dense cheap trials judged for the cancelled-at-entry bound", r.Table("dense trials", "judged"), int64(ndense*denseBatch))
 			r.Floor("product-scale runs", r.Table("runs", "product scale (parallelism x n >= 2^32)"), int64(len(scale)))
 			r.Floor("runs after GOMAXPROCS was changed in-process", r.Table("runs", "after GOMAXPROCS was changed in-process"), int64(len(procs)))
 		}
